@@ -59,6 +59,7 @@ TYPES = {
     "callable_base": Callable[[int], S.Base],
     "opt_model": Optional[S.Model],
     "pos_int": S.pos_int,
+    "ate_int": S.ate_int,
     "type_base": Type[S.Base],
     "opt_type_base": Optional[Type[S.Base]],
     "decimal": Decimal,
@@ -69,6 +70,8 @@ TYPES = {
     "dict_str_base": Dict[str, S.Base],
     "odict_str_base": OrderedDict[str, S.Base],
     "opt_callable": Optional[Callable],
+    "dout": S.DOut,
+    "opt_dout": Optional[S.DOut],
 }
 
 CLASSES = {
@@ -83,8 +86,10 @@ CLASSES = {
     "AbstractBase": S.AbstractBase,
     "DI": S.DI,
     "LBase": S.LBase,
+    "KW": S.KW,
+    "DOut": S.DOut,
 }
-FUNCS = {"double": S.double, "base_n": S.base_n}
+FUNCS = {"double": S.double, "base_n": S.base_n, "sfunc": S.sfunc}
 
 
 def _default(d):
@@ -105,6 +110,38 @@ def type_of(name):
     return TYPES[name]
 
 
+def _action(name):
+    """argparse / jsonargparse actions that are not type hints"""
+    import argparse
+
+    from jsonargparse import ActionYesNo
+
+    if name == "yesno":
+        return ActionYesNo
+    if name == "yesno_with":
+        return ActionYesNo(yes_prefix="with-", no_prefix="without-")
+    if name == "boa":
+        return argparse.BooleanOptionalAction
+    return name  # store_true, store_false, count, append, store_const, version
+
+
+def add_arg(target, d):
+    from jsonargparse import SUPPRESS
+
+    kw = {}
+    if "type" in d:
+        kw["type"] = type_of(d["type"])
+    if "action" in d:
+        kw["action"] = _action(d["action"])
+    for f in ("nargs", "enable_path", "sub_configs", "required", "help", "choices", "const", "version"):
+        if f in d:
+            kw[f] = d[f]
+    if "default" in d:
+        kw["default"] = SUPPRESS if d["default"] == "__suppress__" else _default(d["default"])
+    names = [d["name"]] if d.get("positional") else ["--" + d["name"]] + list(d.get("short", []))
+    target.add_argument(*names, **kw)
+
+
 def build(spec, root=True):
     o = dict(spec.get("opts", {}))
     if root and "prog" not in o:
@@ -113,16 +150,19 @@ def build(spec, root=True):
     for d in spec.get("args", []):
         k = d["k"]
         if k == "arg":
-            kw = {}
-            if "type" in d:
-                kw["type"] = type_of(d["type"])
-            for f in ("nargs", "enable_path", "sub_configs", "required", "help", "choices"):
-                if f in d:
-                    kw[f] = d[f]
-            if "default" in d:
-                kw["default"] = _default(d["default"])
-            name = d["name"] if d.get("positional") else "--" + d["name"]
-            p.add_argument(name, **kw)
+            add_arg(p, d)
+        elif k == "group":
+            g = p.add_argument_group(d.get("title", "grp"))
+            for a in d["args"]:
+                add_arg(g, a)
+        elif k == "mutex":
+            g = p.add_mutually_exclusive_group(required=d.get("required", False))
+            for a in d["args"]:
+                add_arg(g, a)
+        elif k == "function":
+            p.add_function_arguments(FUNCS[d["fn"]], d["name"])
+        elif k == "method":
+            p.add_method_arguments(CLASSES[d["cls"]], d["method"], d["name"])
         elif k == "jsonnet":
             from jsonargparse import ActionJsonnet
 
